@@ -658,6 +658,43 @@ def acct_profile(seed):
 PROFILES["acct"] = acct_profile
 
 
+_BOOT_BASE = PROFILES["boot"]
+
+
+def boot_profile(seed):
+    """Random boot scenarios, plus (every 3rd seed) a template: once the daemon is up, several watchers are started or
+    restarted TOGETHER by one request with a name pattern (or without a name); their order in the configuration is
+    not their priority order."""
+    import random
+    if seed % 3 != 2:
+        return scenario.gen_scenario(seed, _BOOT_BASE)
+    rng = random.Random(seed)
+    n = rng.choice([3, 4])
+    prios = rng.sample([0, 1, 2, 3, 5], n)
+    ws = [{"name": "w%d" % (i + 1), "np": rng.choice([1, 2]), "G": 0.1, "W": rng.choice([0.0, 0.1]), "priority": prios[i]}
+          for i in range(n)]
+    s = [{"op": "boot"}, {"op": "advance", "dt": 3.0}]
+    for _ in range(rng.randint(1, 2)):
+        pat = rng.choice(["w*", "w[12]", "w[23]", "w[123]", "*", None])
+        if rng.random() < 0.5:
+            s.append({"op": "req", "cmd": "stop", "props": ({"name": pat} if pat else {})})
+            s.append({"op": "advance", "dt": 1.5})
+            cmd = "start"
+        else:
+            cmd = "restart"
+        props = {"waiting": rng.random() < 0.5}
+        if pat:
+            props["name"] = pat
+        s.append({"op": "req", "cmd": cmd, "props": props})
+        s.append({"op": "advance", "dt": 3.0})
+    s.append({"op": "end", "xprobe": True, "passes": 1})
+    return {"seed": seed, "watchers": ws, "check_delay": 2.0, "warmup_delay": rng.choice([0.0, 0.1, 0.3]),
+            "stubborn": [], "obeys": [True], "instant_death": False, "script": s}
+
+
+PROFILES["boot"] = boot_profile
+
+
 _SHUTDOWN_BASE = PROFILES["shutdown"]
 
 
@@ -694,6 +731,19 @@ def stop_profile(seed):
     if seed % 3 != 1:
         return scenario.gen_scenario(seed, _STOP_BASE)
     rng = random.Random(seed)
+    if rng.random() < 0.25:
+        # the escalation to SIGKILL goes to the worker's whole family (recursive listing): a worker that ignores the
+        # stop signal and has grandchildren is stopped like any other
+        ws = [{"name": "w1", "np": rng.choice([1, 2]), "G": rng.choice([0.1, 0.2]), "W": 0.0, "stop_children": rng.random() < 0.5},
+              {"name": "w2", "np": 1, "G": 0.1, "W": 0.0}]
+        s = [{"op": "boot"}, {"op": "advance", "dt": 1.0}]
+        for _ in range(rng.randint(1, 2)):
+            s.append({"op": "fork", "sel": ["w1", rng.randint(0, 1)], "obeys": rng.random() < 0.5, "deep": True})
+        s.append({"op": "req", "cmd": rng.choice(["stop", "restart", "rm", "stop"]), "props": {"name": "w1", "waiting": rng.random() < 0.6}})
+        s.append({"op": "advance", "dt": 1.5})
+        s.append({"op": "end", "xprobe": True, "passes": 2})
+        return {"seed": seed, "watchers": ws, "check_delay": rng.choice([1.0, 2.0]), "warmup_delay": 0.0,
+                "stubborn": ["w1"], "obeys": [True], "instant_death": False, "script": s}
     if rng.random() < 0.5:
         # a watcher stopped on request is left alone by a start / restart whose pattern does not match it
         ws = [{"name": n, "np": rng.choice([1, 2]), "G": 0.1, "W": 0.0, "priority": rng.choice([0, 1, 2])} for n in ("w1", "w2", "w3")]
